@@ -91,7 +91,14 @@ static std::string diTypeName(const DIType *T, int depth = 0) {
   if (auto *D = dyn_cast<DIDerivedType>(T)) {
     switch (D->getTag()) {
     case dwarf::DW_TAG_pointer_type: return diTypeName(D->getBaseType(), depth + 1) + "*";
-    case dwarf::DW_TAG_const_type: return "const " + diTypeName(D->getBaseType(), depth + 1);
+    case dwarf::DW_TAG_const_type: {
+      // distinguish `T *const` (const pointer) from `const T *` (pointer to const)
+      const DIType *B = D->getBaseType();
+      const DIType *SB = B;
+      for (int i = 0; SB && i < 8; i++) { auto *DD = dyn_cast<DIDerivedType>(SB); if (DD && (DD->getTag() == dwarf::DW_TAG_typedef || DD->getTag() == dwarf::DW_TAG_volatile_type)) SB = DD->getBaseType(); else break; }
+      if (auto *PB = dyn_cast_or_null<DIDerivedType>(SB)) if (PB->getTag() == dwarf::DW_TAG_pointer_type) return diTypeName(B, depth + 1) + " const";
+      return "const " + diTypeName(B, depth + 1);
+    }
     case dwarf::DW_TAG_volatile_type: return "volatile " + diTypeName(D->getBaseType(), depth + 1);
     case dwarf::DW_TAG_typedef: return D->getName().str();
     default: return D->getName().str();
@@ -170,6 +177,7 @@ int main(int argc, char **argv) {
     if (G.hasInitializer()) {
       Constant *I = G.getInitializer();
       if (I->isZeroValue()) g["init"] = "zero";
+      else if (auto *CI0 = dyn_cast<ConstantInt>(I)) { g["init_int"] = toString(CI0->getValue(), 10, true); }
       else if (auto *CDS = dyn_cast<ConstantDataSequential>(I)) {
         if (CDS->getElementType()->isIntegerTy()) {
           json::Array a;
@@ -234,8 +242,9 @@ int main(int argc, char **argv) {
           o["nargs"] = (int64_t)CB->arg_size();
         }
         if (auto *IC = dyn_cast<ICmpInst>(&I)) o["pred"] = CmpInst::getPredicateName(IC->getPredicate()).str();
-        if (auto *LD = dyn_cast<LoadInst>(&I)) { o["volatile"] = LD->isVolatile(); o["size"] = (int64_t)C.DL->getTypeStoreSize(LD->getType()); }
-        if (auto *SI = dyn_cast<StoreInst>(&I)) { o["volatile"] = SI->isVolatile(); o["size"] = (int64_t)C.DL->getTypeStoreSize(SI->getValueOperand()->getType()); o["valty"] = tyStr(SI->getValueOperand()->getType()); }
+        if (auto *EV = dyn_cast<ExtractValueInst>(&I)) { json::Array ix; for (unsigned x : EV->indices()) ix.push_back((int64_t)x); o["indices"] = std::move(ix); }
+        if (auto *LD = dyn_cast<LoadInst>(&I)) { o["volatile"] = LD->isVolatile(); o["atomic"] = LD->isAtomic(); o["size"] = (int64_t)C.DL->getTypeStoreSize(LD->getType()); }
+        if (auto *SI = dyn_cast<StoreInst>(&I)) { o["volatile"] = SI->isVolatile(); o["atomic"] = SI->isAtomic(); o["size"] = (int64_t)C.DL->getTypeStoreSize(SI->getValueOperand()->getType()); o["valty"] = tyStr(SI->getValueOperand()->getType()); }
         if (auto *AI = dyn_cast<AllocaInst>(&I)) { o["allocty"] = tyStr(AI->getAllocatedType()); if (auto sz = AI->getAllocationSizeInBits(*C.DL)) o["allocsize"] = (int64_t)(*sz / 8); }
         if (auto *GEP = dyn_cast<GetElementPtrInst>(&I)) {
           o["srcty"] = tyStr(GEP->getSourceElementType());
